@@ -79,12 +79,16 @@ func (w *cworld) mkValue(tok string) statecache.Value {
 	}
 	switch w.r.Intn(5) {
 	case 0:
-		return util.NewLeafNode(util.Path("ab"), util.Path("cdef"), 3, &util.SecureSerializableValue{Buffer: []byte(tok)})
+		ln := util.NewLeafNode(util.Path("ab"), util.Path("cdef"), 3, &util.SecureSerializableValue{Buffer: []byte(tok)})
+		// a node re-marked by a later round (the pruning sweep does this): version and origin differ
+		ln.SetVersion(3 + util.Sequence(fw.Hash64(tok)%4))
+		return ln
 	case 1:
 		fn := util.NewFullNode(&util.SecureSerializableValue{Buffer: []byte(tok)})
 		fn.PutChild('a', bytes.Repeat([]byte{1}, 32))
 		fn.PutChild('3', bytes.Repeat([]byte{2}, 32))
 		fn.SetOrigin(4)
+		fn.SetVersion(4 + util.Sequence(fw.Hash64(tok)%3))
 		return fn
 	case 2:
 		h := fw.Hash64(tok)
@@ -92,6 +96,7 @@ func (w *cworld) mkValue(tok string) statecache.Value {
 		copy(key, []byte(tok))
 		en := util.NewExtensionNode(util.Path("abc"+fmt.Sprintf("%x", h&0xfff)), key)
 		en.SetOrigin(5)
+		en.SetVersion(5 + util.Sequence(h%3))
 		return en
 	case 3:
 		vn := util.NewValueNode()
